@@ -121,6 +121,38 @@ def short(x, n=400):
     return s
 
 
+def bytes_strict(on):
+    """`python -b` workers only: make a str/bytes comparison issued from the library's own frames an error (on) or not (off)."""
+    if not sys.flags.bytes_warning:
+        return
+    import warnings
+    warnings.filterwarnings("error" if on else "ignore", category=BytesWarning, module=r"code_data(\..*)?$")
+
+
+def mixes_str_and_bytes_in_a_set(code):
+    """A frozenset constant holding both str and bytes (at any depth): building such a set compares the two whenever their
+    hashes collide - CPython's own compiler warns for it under -b -, so the library cannot avoid the warning either."""
+    def kinds(v, acc):
+        if isinstance(v, (tuple, frozenset)):
+            for x in v:
+                kinds(x, acc)
+        else:
+            acc.add(type(v))
+        return acc
+
+    def walk(v):
+        if isinstance(v, frozenset):
+            k = kinds(v, set())
+            if str in k and bytes in k:
+                return True
+        if isinstance(v, (tuple, frozenset)):
+            return any(walk(x) for x in v)
+        if isinstance(v, CodeType):
+            return any(walk(x) for x in v.co_consts)
+        return False
+    return walk(code)
+
+
 def violation(prop, monitor, clause, case, detail, mech=None):
     """Record a refuting observation. Never raises into the library."""
     key = (monitor, clause, mech)
@@ -130,6 +162,7 @@ def violation(prop, monitor, clause, case, detail, mech=None):
     emit({
         "t": "viol", "prop": prop, "monitor": monitor, "clause": clause,
         "interp": PYTAG, "case": case, "detail": short(detail, 1500), "mech": mech,
+        "pyflags": (["-" + "O" * sys.flags.optimize] if sys.flags.optimize else []) + (["-b"] if sys.flags.bytes_warning else []),
     })
 
 
